@@ -7,6 +7,8 @@ from props.regcommon import checks, default_for
 ID = "C03"
 DRIVER = "drv_regtable"
 HARNESS = "h_regtable"
+QUICK_LEVEL = "thorough"      # the larger case set costs only seconds
+THOROUGH_SEEDS = 8
 GEN = [constants.gen]
 TIE = ['Ufw.Tie.RegTable']
 RULE = ("the small-scope table family of C02 plus write-only areas (flag and missing read callback): EVERY (address, length) window position "
